@@ -230,3 +230,15 @@ CHECKS["C18"] = {
     "design_ref": "DESIGN.md section 5 (C18)",
     "note": "Piece layout is derived from the reference parser's view of a probe run of the same input and options.",
 }
+
+CHECKS["C20"] = {
+    "technique": "TLA+ mapping specification of the command line (Lz4c.tla: flag vector -> Writer options -> descriptor, file effects); "
+                 "TLC enumerates all 160 flag vectors; recorded runs of the real binary are validated by TLC (Lz4c_Trace: RunOK)",
+    "text": "The lz4c binary is built from /repo/cmd/lz4c against /repo's library. For every flag vector (from TLC) x file/stdio operation "
+            "x input size classes x permission modes it compresses and uncompresses; TLC's RunOK recomputes from the flags what the frame "
+            "must show (FLG/BD bytes: block size, block checksum, stream checksum polarity) and requires exit status 0, a strictly valid "
+            "frame decoding to the file, byte identity with the library Writer under the model's options (how -l is observed), and "
+            "restoration of bytes and permission bits. The TLA+ content is a finite mapping table; the weight is in the harness.",
+    "design_ref": "DESIGN.md section 5 (C20)",
+    "note": "Runs with umask 0 in fresh directories; the stale prebuilt /repo/cmd/lz4c/lz4c binary is never executed.",
+}
